@@ -709,6 +709,30 @@ func (fr *Frame) instr(in ssa.Instruction) bool {
 	return false
 }
 
+func singleStore(a *ssa.Alloc) *ssa.Store {
+	for _, ref := range *a.Referrers() {
+		if st, ok := ref.(*ssa.Store); ok && st.Addr == ssa.Value(a) {
+			return st
+		}
+	}
+	return nil
+}
+
+// instrBefore: a executes before b on every path reaching b
+func instrBefore(a, b ssa.Instruction) bool {
+	if a.Block() == b.Block() {
+		for _, in := range a.Block().Instrs {
+			if in == a {
+				return true
+			}
+			if in == b {
+				return false
+			}
+		}
+	}
+	return a.Block().Dominates(b.Block())
+}
+
 func reaches(from, to *ssa.BasicBlock) bool {
 	seen := map[*ssa.BasicBlock]bool{}
 	var dfs func(b *ssa.BasicBlock) bool
@@ -785,7 +809,42 @@ func (fr *Frame) unop(x *ssa.UnOp) {
 			fr.defineFresh(x)
 			return
 		}
+		if a, ok := x.X.(*ssa.Alloc); ok && a.Parent() == fr.fn && immutableCapture(a) {
+			// a variable stored once before any closure captured it and only read by the
+			// closures: a load after the store yields the stored value whatever ran in between
+			if st := singleStore(a); st != nil && instrBefore(st, x) {
+				if v, done := fr.vals[st.Val]; done {
+					fr.vals[x] = v
+					if cl, ok := fr.closures[st.Val]; ok {
+						fr.closures[x] = cl
+					} else if cl := fr.cellClosure(a); cl != nil {
+						fr.closures[x] = cl
+					}
+					if fr.nonNil[st.Val] {
+						fr.nonNil[x] = true
+					}
+					fr.c.assumed["a captured variable stored once (in the block that declares it, before any closure captures it) and only read by closures keeps its value"] = true
+					return
+				}
+			}
+		}
 		if fv, ok := x.X.(*ssa.FreeVar); ok {
+			// inlined closure reading a write-once variable of a function on the inline chain
+			if a := fr.capturedAlloc(fv); a != nil && immutableCapture(a) {
+				for pf := fr.parent; pf != nil; pf = pf.parent {
+					if pf.fn == a.Parent() {
+						if st := singleStore(a); st != nil {
+							if v, done := pf.vals[st.Val]; done {
+								fr.vals[x] = v
+								if cl, ok := pf.closures[st.Val]; ok {
+									fr.closures[x] = cl
+								}
+								return
+							}
+						}
+					}
+				}
+			}
 			if a := fr.capturedAlloc(fv); a != nil && immutableCapture(a) && isAncestorFn(a.Parent(), fr.topFrame().fn) {
 				fr.vals[x] = fr.capConst(a)
 				if cl := fr.freeVarClosure(fv); cl != nil {
